@@ -10,4 +10,4 @@ Definition parse_impl (src : str) : pres document := parse_document impl_flags i
 Extraction "../build/c04/model.ml"
   N.of_nat N.to_nat parse_impl parse_version version_eqb resolve
   node_ids get_node get_alias_source get_args list_imports find_pkg_slot outgoing alist_get
-  denote doc_flags impl_flags_c04.
+  denote doc_flags impl_flags_c04 binding_value.
